@@ -348,7 +348,10 @@ def translator_validation(hs, seed):
         o = obs[i]
         i += 1
         total += 1
-        okk, why = h.agree(vec, outcome, o)
+        try:
+            okk, why = h.agree(vec, outcome, o)
+        except Exception as e:
+            okk, why = False, 'comparison failed: %r' % (e,)
         if not okk:
             bad.append('%s: inputs %s: MIR interpretation and native disagree: %s' % (h.name, {k: str(v) for k, v in vec.items()}, why))
     return total, bad
@@ -562,6 +565,9 @@ def main(argv):
         return check_mirsym(pid, tier, seed)
     except BuildError as e:
         print('INCONCLUSIVE build failed: %s' % e)
+        return 2
+    except Exception as e:      # a crash of the machinery is never a verdict
+        print('INCONCLUSIVE internal error: %s\n%s' % (e, traceback.format_exc()))
         return 2
 
 
